@@ -4,6 +4,7 @@ import Rbp.Proofs.Base58Check
 import Rbp.Proofs.Bech32Decode
 import Rbp.Proofs.Classify
 import Rbp.Proofs.Multisig
+import Rbp.Proofs.Vectors
 /-!
 # C05 — Bitcoin/testnet3: every output script gets the reference type and address
 The rust-bitcoin predicates are modelled by hand in `S`; these theorems relate the model to byte templates.
@@ -144,5 +145,20 @@ theorem prefixes_published :
 theorem instructions_roundtrip (toks : List T.Tok) (h : ∀ t ∈ toks, t.WF) :
     instrs (toks.flatMap T.Tok.enc) = toks.map (fun t => some (SM.toIns t)) :=
   SM.instrs_enc toks h
+
+
+/-- **published vectors (tests, not the unbounded claim).**  The model's own SHA-256, RIPEMD-160, Base58Check and Bech32 / Bech32m
+    reproduce the NIST and RIPEMD reference digests, the Bitcoin genesis block hash and address, and the BIP173 / BIP350 example
+    addresses — checked by the kernel by evaluation (`decide +kernel`), so the correspondence with the code cannot rest on a shared
+    mistake in these primitives -/
+theorem primitives_match_published_vectors :
+    (Sha.hex (Sha.sha256 [0x61, 0x62, 0x63]) = "ba7816bf8f01cfea414140de5dae2223b00361a396177a9cb410ff61f20015ad") ∧
+    (Sha.hex (A.ripemd160 [0x61, 0x62, 0x63]) = "8eb208f7e05d987a9b044a8e98c6b087f15a0bfc") ∧
+    (A.base58check (0x00 :: A.hash160 (Vec.bytes "04678afdb0fe5548271967f1a67130b7105cd6a828e03909a67962e0ea1f61deb649f6bc3f4cef38c4f35504e51ec112de5c384df7ba0b8d578a4c702b6bf11d5f")) =
+      "1A1zP1eP5QGefi2DMPTfTL5SLmv7DivfNa") ∧
+    (A.segwitAddr "bc" 0 (Vec.bytes "751e76e8199196d454941c45d1b3a323f1433bd6") = "bc1qw508d6qejxtdg4y5r3zarvary0c5xw7kv8f3t4") ∧
+    (A.segwitAddr "bc" 1 (Vec.bytes "79be667ef9dcbbac55a06295ce870b07029bfcdb2dce28d959f2815b16f81798") =
+      "bc1p0xlxvlhemja6c4dqv22uapctqupfhlxm9h8z3k2e72q4k9hcz7vqzk5jj0") :=
+  ⟨Vec.sha256_nist.1, Vec.ripemd160_reference.2.1, Vec.bitcoin_genesis.2, Vec.segwit_bip_vectors.1, Vec.segwit_bip_vectors.2.2⟩
 
 end Rbp.Props.C05
